@@ -49,6 +49,39 @@ Definition report (esm : bool) (cases : list (str * str * str)) :=
 """
 
 
+def end_to_end(ctx):
+    """the specifiers generate_imports writes (the way IT calls import_path: with the output directory joined in), on the
+    real export_to_string() of the rt universe: placements inside the base directory, nested, in a sibling of it (`../esc/`),
+    escaping and coming back (`../out/nested/`): every specifier, resolved the TypeScript way from the importing file's
+    directory, is the file the imported type is written to"""
+    import re
+    import exportsm as sm
+    import harness
+    bad, n = [], 0
+    for esm in (False, True):
+        U = sm.Universe(harness.rt(esm))
+        for t in U.types:
+            if t["out"] is None or t["text"].startswith("\x00"):
+                continue
+            here = os.path.normpath(os.path.join("/tmp/v/bindings", t["out"]))
+            for names, spec in re.findall(r'import type \{ (.*?) \} from "(.*?)";', t["text"]):
+                for nm in names.split(", "):
+                    vis = list(t["visit_ix"]) + (list(U.types[t["wg_ix"]]["visit_ix"]) if t["wg_ix"] < len(U.types) else [])
+                    deps = [U.types[i] for i in vis if i < len(U.types) and U.types[i]["ident"] == nm and U.types[i]["out"]]
+                    n += 1
+                    want = {os.path.normpath(os.path.join("/tmp/v/bindings", d["out"])) for d in deps}
+                    ok_rel = spec.startswith("./") or spec.startswith("../")
+                    target = os.path.normpath(os.path.join(os.path.dirname(here), spec))
+                    got = target[:-3] + ".ts" if esm and target.endswith(".js") else target + ".ts"
+                    if not ok_rel or got not in want:
+                        bad.append(dict(kind="property-violated", importer=t["rust"], importer_file=here, imported=nm, specifier=spec, esm=esm,
+                                        resolves_to=got, written_to=sorted(want), text=t["text"]))
+    sm.cleanup()
+    for b in bad[:1]:
+        ctx.fail("an import specifier of a real export_to_string() does not resolve to the file of the imported type", b)
+    return {"imports_checked": n, "violations": len(bad)}
+
+
 def run(ctx):
     proof = ctx.prove()
     os.makedirs(CWD, exist_ok=True)
@@ -157,9 +190,11 @@ def run(ctx):
         ctx.known_class("ts_ts_file_name", repr(by_name[name][3][j]),
                         dict(kind="property-violated", cwd=CWD, case=list(by_name[name][3][j]), esm=esm, implementation=impl[name][j]))
 
+    e2e = end_to_end(ctx)
     ctx.finish_proof()
     n = sum(len(s[3]) for s in shards)
     ctx.coverage.update({
+        "end_to_end_universe": e2e,
         "evaluations": n,
         "distinct_nontrivial": totals["c08"][1] + totals["c08"][2] + totals["c08"][4],
         "rule": "every (from, to) pair of relative paths of depth <= %d / <= %d over the component alphabet %s, joined (by PathBuf::join / path_join) to each base in %s, x import-esm off/on, enumerated identically inside Coq and in the driver; plus %d seeded random triples (base, from, to) of depth <= 5 over a larger alphabet. Non-trivial = both paths denote files, the target is named `<stem>.ts` and is not an ancestor of the importer (the property's hypotheses), so the resolution oracle actually ran." % (
